@@ -83,6 +83,13 @@ func (f *NullIfFunction) Execute(ctx *FunctionContext, args []any) (any, error) 
 	if reflect.DeepEqual(args[0], args[1]) {
 		return nil, nil
 	}
+	// Numbers are equal by value whatever their Go type: null_if(0, a) with a == int 0
+	// compares a float64 literal with an int column.
+	if a, ok := numericArg(args[0]); ok {
+		if b, ok := numericArg(args[1]); ok && a == b {
+			return nil, nil
+		}
+	}
 	return args[0], nil
 }
 
@@ -262,4 +269,14 @@ func (f *CaseWhenFunction) Execute(ctx *FunctionContext, args []any) (any, error
 
 	// 没有默认值，返回 nil
 	return nil, nil
+}
+
+// numericArg returns the numeric value of a Go number (not of numeric-looking text).
+func numericArg(v any) (float64, bool) {
+	switch v.(type) {
+	case int, int8, int16, int32, int64, uint, uint8, uint16, uint32, uint64, float32, float64:
+		f, err := cast.ToFloat64E(v)
+		return f, err == nil
+	}
+	return 0, false
 }
